@@ -253,6 +253,20 @@ func (e *enc) inline(x *ssa.Call, callee *ssa.Function, argVals []ssa.Value, arg
 	e.run(fr2, fr.cur)
 	e.stack = e.stack[:len(e.stack)-1]
 	e.fr = fr
+	// pointer knowledge after the call: what all return paths agree on
+	if len(fr2.returns) > 0 {
+		e.ptrIn = map[string]*Loc{}
+		for k, v := range fr2.returns[0].ptr {
+			e.ptrIn[k] = v
+		}
+		for _, r := range fr2.returns[1:] {
+			for k, v := range e.ptrIn {
+				if r.ptr[k] != v {
+					delete(e.ptrIn, k)
+				}
+			}
+		}
+	}
 	if len(fr2.returns) == 0 {
 		// callee never returns (panics / exits on every path)
 		fr.cur = "false"
@@ -312,6 +326,8 @@ func (e *enc) callEnv(callee *ssa.Function, argVals []ssa.Value, args []Term) *s
 		if argVals != nil {
 			if l, ok := fr.loc[argVals[i]]; ok {
 				env.ptrLoc[p.Name()] = l
+			} else if g, ok := argVals[i].(*ssa.Global); ok {
+				env.ptrLoc[p.Name()] = e.locOf(g) // &globalVar passed as an argument
 			}
 			if _, isMap := p.Type().Underlying().(*types.Map); isMap {
 				if l, ok := fr.prov[argVals[i]]; ok {
@@ -347,6 +363,19 @@ func (e *enc) modularCall(x *ssa.Call, callee *ssa.Function, ct *Contract, args 
 			continue
 		}
 		e.oblige("pre@"+fnFull(callee), g, x.Pos(), rq.Text)
+		e.assumeAt(g)
+	}
+	// state invariants of the callee's package: required at the call, re-established by the callee (proved in its own verification)
+	var calleeInvs []Clause
+	if callee.Pkg != nil && !ct.Establishes {
+		calleeInvs = e.ss.Invariants[callee.Pkg.Pkg.Path()]
+	}
+	for _, iv := range calleeInvs {
+		g, err := e.specBool(env, iv.E)
+		if err != nil {
+			continue
+		}
+		e.oblige("pre@"+fnFull(callee), g, x.Pos(), "invariant: "+iv.Text)
 		e.assumeAt(g)
 	}
 	pre := copyMem(e.mem)
@@ -418,6 +447,14 @@ func (e *enc) modularCall(x *ssa.Call, callee *ssa.Function, ct *Contract, args 
 			continue
 		}
 		e.assumeAt(g)
+	}
+	// the package invariants hold again after the call (also for constructors, which establish them)
+	if callee.Pkg != nil {
+		for _, iv := range e.ss.Invariants[callee.Pkg.Pkg.Path()] {
+			if g, err := e.specBool(env2, iv.E); err == nil {
+				e.assumeAt(g)
+			}
+		}
 	}
 }
 
